@@ -1227,7 +1227,7 @@ func (t *tScreen) resize() {
 	if err != nil {
 		return
 	}
-	if ws.Width == t.w && ws.Height == t.h {
+	if cw, ch := t.cells.Size(); ws.Width == t.w && ws.Height == t.h && cw == t.w && ch == t.h {
 		return
 	}
 	t.cx = -1
